@@ -95,7 +95,8 @@ class TorchBackend(BaseBackend):
         # differ, matching the previous torch.tensor() behavior).
         def f(t, y):
             rhs = func(torch.as_tensor(t, dtype=dtype), torch.as_tensor(y, dtype=dtype), *args)
-            return rhs.numpy()
+            # copy: the vector field returns the same buffer on every call and scipy keeps references (dense output)
+            return np.array(rhs.numpy())
 
         # call scipy solver
         results = solve_ivp(fun=f, t_span=(t0, T), y0=y, first_step=dt, **kwargs)
